@@ -95,6 +95,7 @@ def _one(case, R, rng):
         spec["params"]["sigma_j"] = max(spec["params"]["sigma_j"], 0.08)
         spec["params"]["mu_j"] = min(spec["params"]["mu_j"], 0.05)
     model = W.build_model(spec)
+    ref_model = W.build_model(spec)          # never handed to the library's chain / closed forms: source of the oracle's density
     g = G.gen_grid_spec(rng, "credit", 1)
     try:
         grid = G.build_grid(g, model)
@@ -113,7 +114,7 @@ def _one(case, R, rng):
     rates = recd.jump_vectors[-1] * lam
     below = float(np.sum(rates[axis < a]))
     cf_trunc = float(CFLevyModel(proc.model)._theta(a))
-    dens = model.levy_triplet.nu.__call__
+    dens = ref_model.levy_triplet.nu.__call__
     al, br = W.activity_index(spec), W.density_breakpoints(spec)
     qd, e = Q.integrate_xn(dens, float(axis[0]), a, 0, br, al)
     R.hit("chain_vs_closed_form_1d")
